@@ -98,17 +98,18 @@ type common struct {
 }
 
 var subcommands = map[string]func(common){
-	"tbl-redirect":  func(c common) { table(c, tbldrv.RedirectCase) },
-	"tbl-verifier":  func(c common) { table(c, tbldrv.VerifierCase) },
-	"tbl-signature": func(c common) { table(c, tbldrv.SignatureCase) },
-	"tbl-assertion": func(c common) { table(c, tbldrv.AssertionCase) },
-	"tbl-reqobj":    func(c common) { table(c, tbldrv.RequestObjectCase) },
-	"tbl-authresp":  func(c common) { table(c, tbldrv.AuthResponseCase) },
-	"tbl-codec":     func(c common) { table(c, tbldrv.CodecCase) },
-	"tbl-interop":   func(c common) { table(c, tbldrv.InteropCase) },
-	"tbl-keywiring": func(c common) { tbldrv.DiscWorldPath = c.world; table(c, tbldrv.KeyWiringCase) },
-	"tbl-usercode":  func(c common) { tbldrv.DiscWorldPath = c.world; table(c, tbldrv.UserCodeCase) },
-	"tbl-discovery": func(c common) { tbldrv.DiscWorldPath = c.world; table(c, tbldrv.DiscoveryCase) },
+	"tbl-redirect":    func(c common) { table(c, tbldrv.RedirectCase) },
+	"tbl-verifier":    func(c common) { table(c, tbldrv.VerifierCase) },
+	"tbl-signature":   func(c common) { table(c, tbldrv.SignatureCase) },
+	"tbl-assertion":   func(c common) { table(c, tbldrv.AssertionCase) },
+	"tbl-reqobj":      func(c common) { table(c, tbldrv.RequestObjectCase) },
+	"tbl-authresp":    func(c common) { table(c, tbldrv.AuthResponseCase) },
+	"tbl-codec":       func(c common) { table(c, tbldrv.CodecCase) },
+	"tbl-interop":     func(c common) { table(c, tbldrv.InteropCase) },
+	"tbl-keywiring":   func(c common) { tbldrv.DiscWorldPath = c.world; table(c, tbldrv.KeyWiringCase) },
+	"tbl-keyrotation": func(c common) { tbldrv.InstallRotationHook(); table(c, tbldrv.KeyRotationCase) },
+	"tbl-usercode":    func(c common) { tbldrv.DiscWorldPath = c.world; table(c, tbldrv.UserCodeCase) },
+	"tbl-discovery":   func(c common) { tbldrv.DiscWorldPath = c.world; table(c, tbldrv.DiscoveryCase) },
 	"tbl-isolation": func(c common) {
 		tbldrv.DiscWorldPath = c.world
 		n, err := tbldrv.Run(c.in, c.out, 1, tbldrv.IsolationCase) // one case at a time: the cases observe package-level state
